@@ -24,10 +24,13 @@ BLANKS = [" ", "  ", "\t", "\n", "\r", " \n "]
 class Speller:
     """Spelling choices drawn from one rng: quote style, escapes, blanks where RFC 9535 allows S."""
 
-    def __init__(self, rng, blanks=0.15, std=True):
+    def __init__(self, rng, blanks=0.15, std=True, tok=None):
         self.rng = rng
         self.p_blank = blanks
         self.std = std
+        self.tok = {"root": "$", "fake": "^", "self": "@", "key": "#", "union": "|", "inter": "&", "fctx": "_", "keys": "~"}
+        if tok:
+            self.tok.update(tok)
 
     def S(self):
         return self.rng.choice(BLANKS) if self.rng.random() < self.p_blank else ""
@@ -87,7 +90,7 @@ def render_sel(sel, sp):
     if sel == "wild":
         return "*"
     if sel == "keys":
-        return "~"
+        return sp.tok["keys"]
     k = sel[0]
     if k == "name":
         return sp.string(sel[1])
@@ -118,7 +121,7 @@ def render_segs(segs, sp):
             if s == "wild":
                 out.append(lead + "*")
             elif s == "keys":
-                out.append(lead + "~")
+                out.append(lead + sp.tok["keys"])
             elif s[0] == "name":
                 out.append(lead + s[1])
             else:
@@ -148,7 +151,7 @@ def render_expr(e, sp, min_prec):
     if e == "undef":
         return sp.rng.choice(["undefined", "missing"])
     if e == "key":
-        return "#"
+        return sp.tok["key"]
     k = e[0]
     if k == "lit":
         v = e[1]
@@ -189,25 +192,25 @@ def render_expr(e, sp, min_prec):
             return "(" + sp.S() + s + sp.S() + ")"
         return s
     if k == "self":
-        return "@" + render_segs(e[1:], sp)
+        return sp.tok["self"] + render_segs(e[1:], sp)
     if k == "root":
-        return ("^" if e[1] else "$") + render_segs(e[2:], sp)
+        return (sp.tok["fake"] if e[1] else sp.tok["root"]) + render_segs(e[2:], sp)
     if k == "ctx":
-        return "_" + render_segs(e[1:], sp)
+        return sp.tok["fctx"] + render_segs(e[1:], sp)
     if k == "fn":
         return e[1] + "(" + sp.S() + (sp.S() + "," + sp.S()).join(render_expr(a, sp, 0) for a in e[2:]) + sp.S() + ")"
     raise ValueError(e)
 
 
 def render_path(path, sp, implicit_root=False):
-    root = "^" if path["fake"] else ("" if implicit_root else "$")
+    root = sp.tok["fake"] if path["fake"] else ("" if implicit_root else sp.tok["root"])
     return root + render_segs(path["segs"], sp)
 
 
 def render_query(q, sp):
     out = render_path(q["first"], sp)
     for op, p in q["rest"]:
-        out += " " + ("|" if op == "union" else "&") + " " + render_path(p, sp)
+        out += " " + (sp.tok["union"] if op == "union" else sp.tok["inter"]) + " " + render_path(p, sp)
     return out
 
 
